@@ -181,6 +181,11 @@ func (r *transport) RoundTrip(req *http.Request) (*http.Response, error) {
 	urlKey := r.uk.URLKey(req.URL)
 
 	if !r.rmc.IsRequestMethodUnderstood(req) {
+		// only-if-cached forbids the network (RFC 9111 §5.2.1.7); a request that is
+		// never answered from the store can only get a 504 then.
+		if internal.ParseCCRequestDirectives(req.Header).OnlyIfCached() {
+			return make504Response(req)
+		}
 		return r.handleUnrecognizedMethod(req, urlKey)
 	}
 
